@@ -5,6 +5,9 @@ package main
 import (
 	"fmt"
 	"os"
+	"time"
+
+	gnet "github.com/panjf2000/gnet/v2"
 
 	"github.com/panjf2000/gnet/v2/pkg/vsys"
 	"github.com/panjf2000/gnet/v2/zzverif/vlib"
@@ -73,6 +76,27 @@ func main() {
 				res.Sample(map[string]any{"case": "c02", "config": c.String(), "connections": npeers})
 			}
 		}
+	case "c04", "c06", "c07":
+		runLifeMode(mode, r, keys)
+	case "c05":
+		nlife := 5
+		if res.Thorough() {
+			nlife = 40
+		}
+		if *vlib.FlagN > 0 {
+			nlife = *vlib.FlagN
+		}
+		cfgs := streamConfigs(r, true, 0)
+		for i := 0; i < nlife; i++ {
+			c := cfgs[i%len(cfgs)]
+			c.LB = []gnet.LoadBalancing{gnet.RoundRobin, gnet.LeastConnections, gnet.SourceAddrHash}[i%3]
+			n := runC05Case(c, res.Seed*1000303+uint64(i), time.Duration(600+r.Intn(600))*time.Millisecond, r.Pick(8, 16, 32), i%2 == 1, keys)
+			res.Eval(n)
+			res.Checkpoint()
+			if i < 2 {
+				res.Sample(map[string]any{"case": "c05", "config": c.String(), "boot_caller": i%2 == 1})
+			}
+		}
 	default:
 		fmt.Fprintln(os.Stderr, "eng: unknown mode", mode)
 		os.Exit(2)
@@ -81,4 +105,43 @@ func main() {
 		res.Distinct(k)
 	}
 	res.Finish()
+}
+
+func runLifeMode(mode string, r *vlib.Rand, keys map[string]struct{}) {
+	sources := []string{"Engine.Stop", "Stop", "OnOpen", "OnTraffic", "OnClose", "OnTick"}
+	moments := []string{"idle", "connect-storm", "traffic"}
+	ncase := 16
+	if res.Thorough() {
+		ncase = 150
+	}
+	if *vlib.FlagN > 0 {
+		ncase = *vlib.FlagN
+	}
+	cfgs := streamConfigs(r, true, 0)
+	for i := 0; i < ncase; i++ {
+		c := cfgs[i%len(cfgs)]
+		o := lifeOpts{npeers: r.Pick(8, 20, 40), shutdownFrom: "Engine.Stop", moment: "idle"}
+		switch mode {
+		case "c04":
+			o.npeers = r.Pick(20, 40, 60)
+		case "c06":
+			o.shutdownFrom = sources[i%len(sources)]
+			o.moment = moments[(i/len(sources)+i)%len(moments)]
+			o.npeers = r.Pick(0, 1, 20, 50)
+			o.ticker = r.Bool()
+		case "c07":
+			o.canaries = 3
+			o.moment = moments[i%len(moments)]
+			o.npeers = r.Pick(10, 30, 60)
+			if i%3 == 1 {
+				o.shutdownFrom = sources[r.Intn(len(sources))]
+			}
+		}
+		n := runLifeCase(c, res.Seed*1000211+uint64(i), o, keys)
+		res.Eval(n)
+		res.Checkpoint()
+		if i < 2 {
+			res.Sample(map[string]any{"case": mode, "config": c.String(), "connections": o.npeers, "shutdown_source": o.shutdownFrom, "moment": o.moment, "plans": lifePlans})
+		}
+	}
 }
